@@ -252,6 +252,27 @@ def min_cross_angle(PA, PB):
     return m
 
 
+def crossing_points(PA, PB):
+    out = []
+    for i in range(len(PA)):
+        a, b = PA[i], PA[(i + 1) % len(PA)]
+        for j in range(len(PB)):
+            c, d = PB[j], PB[(j + 1) % len(PB)]
+            if seg_cross(a, b, c, d):
+                o1, o2 = orient(c, d, a), orient(c, d, b)
+                t = o1 / (o1 - o2)
+                out.append((a[0] + t * (b[0] - a[0]), a[1] + t * (b[1] - a[1])))
+    return out
+
+
+def min_separation(pts):
+    m = math.inf
+    for i in range(len(pts)):
+        for j in range(i + 1, len(pts)):
+            m = min(m, angle(pts[i], pts[j]))
+    return m
+
+
 def crossings(PA, PB):
     return sum(1 for i in range(len(PA)) for j in range(len(PB))
                if seg_cross(PA[i], PA[(i + 1) % len(PA)], PB[j], PB[(j + 1) % len(PB)]))
@@ -417,6 +438,7 @@ def finish_pair(rng, PA, PB, placement, ang_radius, margin, stream):
     m = pair_margin(A3, B3)
     if m < margin:
         return None
+    node_sep = min_separation(A3 + B3 + [ch.to_sphere(x, y) for x, y in crossing_points(PA, PB)])
     inter_ref = None
     if rel == "overlap":
         clip = clip_convex(PA, PB)
@@ -429,7 +451,7 @@ def finish_pair(rng, PA, PB, placement, ang_radius, margin, stream):
             "planar_a": PA, "planar_b": PB, "inter_ref": inter_ref, "chart": [lon, lat],
             "area_a_ref": fan_area(unit(tuple(sum(p[i] for p in A3) for i in range(3))), A3),
             "area_b_ref": fan_area(unit(tuple(sum(p[i] for p in B3) for i in range(3))), B3),
-            "cross_angle": min_cross_angle(PA, PB)}
+            "cross_angle": min_cross_angle(PA, PB), "node_sep": node_sep}
 
 
 def gen_pair_near_parallel(rng, na, placement, margin):
